@@ -68,7 +68,8 @@ func VerifShuffle(n int) {
 	vCover("shuffle")
 }
 
-//verif:case C08,C09 quick VerifSampleStreamOwnership 0..3 1..2 0..1
+//verif:case C08,C09 quick VerifSampleStreamOwnership 0..3 1..2 0..1 0
+//verif:case C08,C09 quick VerifSampleStreamOwnership 0..3 0..2 0..1 1
 
 type vSampleSrc struct {
 	n, pos     int
@@ -95,7 +96,23 @@ func (s *vSampleSrc) Close() { s.closes++ }
 
 // VerifSampleStreamOwnership: SampleStream closes the stream it is given exactly once, whether
 // it ends normally or fails, and reports the source's error itself.
-func VerifSampleStreamOwnership(n int, k int, faulty int) {
+// vFixedFloats: a random source for the in-package sampler whose floats are concrete (so that
+// the reservoir arithmetic - including the degenerate k == 0, where it relies on
+// exp(log(u)/0) == 0 - is computed exactly) and whose integer draws stay symbolic.
+type vFixedFloats struct{ i *int }
+
+func (r vFixedFloats) Float64() float64 {
+	*r.i++
+	return []float64{0.5, 0.25, 0.75, 0.125, 0.9, 0.01}[*r.i%6]
+}
+func (r vFixedFloats) Intn(n int) int {
+	x := vNondetInt("intn")
+	vAssume(vAnd(0 <= x, x < n))
+	return x
+}
+func (r vFixedFloats) Shuffle(n int, swap func(int, int)) {}
+
+func VerifSampleStreamOwnership(n int, k int, faulty int, rnd int) {
 	E := errors.New("E")
 	src := &vSampleSrc{n: n, errPos: -1, E: E}
 	if faulty == 1 {
@@ -103,7 +120,13 @@ func VerifSampleStreamOwnership(n int, k int, faulty int) {
 		vAssume(vAnd(0 <= p, p <= n))
 		src.errPos = vConcretize(p)
 	}
-	out, err := SampleStream[int](context.Background(), src, k)
+	var out []int
+	var err error
+	if rnd == 1 {
+		out, err = rSampleStream[int](context.Background(), vFixedFloats{new(int)}, src, k)
+	} else {
+		out, err = SampleStream[int](context.Background(), src, k)
+	}
 	if faulty == 1 {
 		vAssert(err == E, "C08:samplestream/returns-the-source-error-itself")
 	} else {
